@@ -239,7 +239,12 @@ func TestC09(t *testing.T) {
 				nodes, vals = parenSites(tree, nil)
 			}
 			v := base
-			v.Extra, v.ValPar = map[int]int{}, map[int]int{}
+			v.Extra, v.ValPar, v.LstPar = map[int]int{}, map[int]int{}, map[int]int{}
+			tree.Walk(func(id int, n *gen.Node) {
+				if n.K == gen.NList && rapid.IntRange(0, 2).Draw(rt, "lstpar") == 0 {
+					v.LstPar[id] = rapid.IntRange(1, 1<<uint(len(n.Vals))-1).Draw(rt, "mask")
+				}
+			})
 			k := rapid.IntRange(1, 3).Draw(rt, "nsites")
 			nonRoot := false
 			for i := 0; i < k; i++ {
@@ -253,6 +258,9 @@ func TestC09(t *testing.T) {
 				if id != 0 {
 					nonRoot = true
 				}
+			}
+			if len(v.LstPar) > 0 {
+				nonRoot = true
 			}
 			ntok := 0
 			if nonRoot {
